@@ -187,7 +187,7 @@ def _merge_strings(v):
 
 @st.composite
 def chain_cases(draw):
-    base = draw(gen.cases(max_modules=3, max_tasks=3))
+    base = draw(gen.cases(max_modules=3, max_tasks=3, kinds=['dict', 'list', 'str', 'int', 'numpy', 'memory', 'memory']))
     kinds = mutate.CHANGING + (['wrap_ns', 'rename_files', 'perm_keys'] if draw(st.booleans()) else [])
     case2, prefix, labels = draw(mutate.rewrite(base, kinds, n_max=2))
     case2['global_vars'] = copy.deepcopy(base.get('global_vars'))
